@@ -178,6 +178,27 @@ int main() {
                 }
                 d.out << r << d.drainSide() << "\n";
             }
+            else if ((w[0] == "get" || w[0] == "getmut") && w.size() == 3) {
+                // as capi_driver: the lookup, then whether it marked the component changed
+                d.ensureWorld();
+                d.world->incrementVersion();
+                d.line(l);
+                std::string r = d.out.str();
+                d.out.str("");
+                while (!r.empty() && r.back() == '\n') r.pop_back();
+                Entity e;
+                if (r.rfind("val=", 0) == 0 && r != "val=null" && d.world && d.parseEntity(w[1], e) && strchr(kLetters, w[2][0])) {
+                    auto& m = d.em();
+                    Archetype* a = m.getArchetypeOf(e);
+                    bool st = false;
+                    if (a && a->hasComponent(compId(w[2][0]))) {
+                        st = a->getComponentVersion(ArchetypeEntityIndex::make(Access::locIndex(m, e)), compId(w[2][0])).toInt() ==
+                             d.world->version().toInt();
+                    }
+                    r += st ? " st=1" : " st=0";
+                }
+                d.out << r << "\n";
+            }
             else if (w[0] == "clear") { d.em().clear(); d.out << "ok" << d.drainSide() << "\n"; }
             else if (w[0] == "foreach") { d.out << foreachRef(d, w) << d.drainSide() << "\n"; }
             else d.line(l);
